@@ -193,7 +193,7 @@ Proof.
     exists ts', F. split; [|split; [|exact A]].
     + eapply Hhead; [exact R|reflexivity].
     + now rewrite replace_at_split.
-  - destruct (splice_new_insert_spec ts rs r tid ri T p k cs (after_name cs) (archqual_node q) Hr HT HG (after_name_le cs))
+  - destruct (splice_new_insert_spec_o ts rs r tid ri T p k cs (after_name cs) (archqual_node q) Hr HT HG (after_name_le cs))
       as (ts' & F & R & T' & A).
     exists ts', F. split; [|split; [exact T'|exact A]]. eapply Hhead; [exact R|reflexivity].
 Qed.
@@ -204,7 +204,8 @@ Lemma drop_constraint_spec_gen k cs ts rs r tid ri T p :
   exists ts' F b,
     runs (relation_drop_constraint r) (mk_state ts rs) b (mk_state ts' (map (option_map F) rs)) /\
     nth_error ts' tid = Some (mk_slot true ri (upd_path T p (fun _ => Node k (drop_constraint_cs cs)))) /\
-    (forall g, h_tid g < length ts -> above tid p g -> F g = g).
+    (forall g, h_tid g < length ts -> above tid p g -> F g = g) /\
+    (forall j, j <> tid -> j < length ts -> nth_error ts' j = nth_error ts j).
 Proof.
   intros Hr HT HG. pose proof (nth_error_Some_lt _ _ _ HT) as Hlt. unfold drop_constraint_cs.
   destruct (find_index (node_is VERSION) cs) as [vi|] eqn:E.
@@ -227,7 +228,8 @@ Proof.
       by (unfold rs1; rewrite (nth_error_map_reg F1 _ _ _ (nth_error_app_at _ _)); now rewrite S1).
     destruct (detach_reg_spec ts1 _ (length rs) tid ri T1' p k pre0 x post Hr1 T1 HG1)
       as (ts2 & F2 & R2 & L2 & T2 & N2 & O2 & S2 & A2).
-    exists ts2, (fun g => F2 (F1 g)), true. split; [|split].
+    exists ts2, (fun g => F2 (F1 g)), true. split; [|split; [|split]].
+    4:{ intros j Hj Hl. rewrite O2 by lia. now apply O1. }
     + unfold relation_drop_constraint. rbind; [apply runs_get_reg; exact Hr|].
       rbind; [eapply runs_children_of; [exact HT|exact HG]|]. cbn [children]. rewrite E.
       rbind; [|rdone].
@@ -309,7 +311,7 @@ Lemma rel_node_op_runs_gen m T ci cj N N' ts tid ri c d :
     nth_error ts' tid = Some (mk_slot true ri (upd_path T [ci; cj] (fun _ => N'))).
 Proof.
   intros Hop HT HG. pose proof (nth_error_Some_lt _ _ _ HT) as Hlt.
-  destruct (Hop ts [Some (mk_hnd tid []); Some (mk_hnd tid [ci]); Some (mk_hnd tid [ci; cj]); c; d]
+  destruct (node_op_regs _ _ _ Hop ts [Some (mk_hnd tid []); Some (mk_hnd tid [ci]); Some (mk_hnd tid [ci; cj]); c; d]
                 2 tid ri T [ci] cj eq_refl HT HG) as (ts' & rs' & R3 & L3 & T3 & S3 & A3).
   destruct (list5 rs' L3) as (x0 & x1 & x2 & x3 & x4 & ->).
   pose proof (A3 0 (mk_hnd tid []) ltac:(lia) eq_refl Hlt (above_root _ _ _)) as E0.
